@@ -903,6 +903,7 @@ AnyP::Uri::addRelativePath(const char *relUrl)
         path_.chop(0, lastSlashPos+1);
     }
     path_.append(relUrl, relUrlLength);
+    touch(); // the memoised absolute()/absolutePath() forms describe the old path
 }
 
 int
